@@ -644,6 +644,7 @@ class SymInt:
     def __neg__(self): return SymInt(-self.e)
     def __pos__(self): return self
     def __abs__(self): return SymInt(z3.If(self.e < 0, -self.e, self.e))
+    def __bool__(self): return bool(SymBool(self.e != 0))
     def __index__(self): return concretize_int(self)
     def __int__(self): return concretize_int(self)
     def __repr__(self): return '<SymInt %s>' % (str(self.e)[:40],)
@@ -767,6 +768,7 @@ class SymFloat:
     def __truediv__(self, o): return self._div(o)
     def __rtruediv__(self, o): return self._div(o, True)
     def __neg__(self): return SymFloat(-self.v, self.n)
+    def __bool__(self): return bool(SymBool(z3.Or(self.n, self.v != 0)))   # NaN is truthy
     def __pos__(self): return self
     def __abs__(self): return SymFloat(z3.If(self.v < 0, -self.v, self.v), self.n)
 
@@ -871,6 +873,7 @@ class SymFP:
     def __truediv__(self, o): return self._ar(o, z3.fpDiv)
     def __rtruediv__(self, o): return self._ar(o, z3.fpDiv, True)
     def __neg__(self): return SymFP(z3.fpNeg(self.e))
+    def __bool__(self): return bool(SymBool(z3.Not(z3.fpIsZero(self.e))))
     def __pos__(self): return self
     def __abs__(self): return SymFP(z3.fpAbs(self.e))
     def __repr__(self): return '<SymFP>'
